@@ -134,7 +134,9 @@ fn replay(cases: &str, outp: &str) {
                     let got = res_new(guarded(move || Path::new_with_replace(id, mp, &t2)), &back);
                     // the exact result only for chain-free tables (C18 does not fix the application order of a
                     // table whose replacement text is a later search text; C09 does); validity always
-                    let valid_ok = got["k"] != "ok" || (got["segs"].as_array().unwrap().len() == ss.len()
+                    // (a namespace segment that contains the separator splits into several segments of the module path)
+                    let want_len = if mp.is_empty() { 1 } else { mp.split("::").count() + 1 };
+                    let valid_ok = got["k"] != "ok" || (got["segs"].as_array().unwrap().len() == want_len
                         && got["segs"].as_array().unwrap().iter().all(|s| Path::from_segments([st(&concretize(s, 0))]).is_ok()));
                     if !valid_ok || (c["chainfree"] == true && classes_only(&got) != classes_only(&expect_new(&c["newr"]))) {
                         mism.push(format!("new_with_replace({id:?},{mp:?},{tab:?}) = {got} expected {}", c["newr"]));
